@@ -337,6 +337,89 @@ def rule_trim_frame(ctx: Ctx, clause: str = "C11.9") -> RuleResult:
     return rr
 
 
+def _ub(e, env):
+    """upper bound of a non-negative integer expression built from byte values with & | << + and constants;
+    None = unbounded / unknown"""
+    if isinstance(e, ast.Constant) and isinstance(e.value, int) and not isinstance(e.value, bool):
+        return e.value
+    if isinstance(e, ast.Name):
+        return env.get(e.id)
+    if isinstance(e, ast.NamedExpr):
+        return _ub(e.value, env)
+    if isinstance(e, ast.BinOp):
+        if isinstance(e.op, ast.BitAnd):
+            a, b = _ub(e.left, env), _ub(e.right, env)
+            return min(x for x in (a, b) if x is not None) if (a is not None or b is not None) else None
+        a, b = _ub(e.left, env), _ub(e.right, env)
+        if a is None or b is None:
+            return None
+        if isinstance(e.op, ast.LShift):
+            return a << b
+        if isinstance(e.op, (ast.BitOr, ast.Add)):
+            return a + b  # >= a | b
+        if isinstance(e.op, ast.Mult):
+            return a * b
+    return None
+
+
+def rule_ordinal_range(ctx: Ctx, clause: str = "C11.10") -> RuleResult:
+    """get_width() calls chr() on what decode_one() returns; chr() raises ValueError above 0x10FFFF.  Every ordinal
+    decode_one can return is therefore bounded: the bit arithmetic of each branch gives an upper bound (x & K <= K,
+    x << n, a | b <= a + b) which the branch's own comparison may tighten (`<= 0x10FFFF`)."""
+    p = ctx.p
+    rr = RuleResult("RANGE", clause, "every ordinal decode_one() can return is at most 0x10FFFF (the largest argument chr() accepts)", floor=4)
+    fi = p.func(f"{SU}.decode_one")
+    LIMIT = 0x10FFFF
+    # byte variables: anything assigned from text[...] / ord(text[...]) or 0
+    env = {}
+    for n in fi.own_nodes():
+        if isinstance(n, ast.Assign) and len(n.targets) == 1 and isinstance(n.targets[0], ast.Name):
+            v = n.value
+            if isinstance(v, ast.Subscript) or (isinstance(v, ast.Call) and isinstance(v.func, ast.Name) and v.func.id == "ord") or (isinstance(v, ast.Constant) and v.value == 0):
+                env.setdefault(n.targets[0].id, 0)
+                env[n.targets[0].id] = max(env[n.targets[0].id], 0xFF if not isinstance(v, ast.Constant) else 0)
+    # str text: ord() of a str element can be up to 0x10FFFF, but then the first branch (b1 & 0x80 == 0) or the
+    # masks bound the result all the same; the masks are what the bound uses
+    n_ret = 0
+    for iff in [n for n in fi.own_nodes() if isinstance(n, ast.If)]:
+        for r in [x for x in iff.body if isinstance(x, ast.Return) and isinstance(x.value, ast.Tuple) and x.value.elts]:
+            o = r.value.elts[0]
+            bound = None
+            why = ""
+            if isinstance(o, ast.Name):
+                # bound by a walrus in the test, possibly tightened by the comparison
+                for c in ast.walk(iff.test):
+                    if isinstance(c, ast.NamedExpr) and c.target.id == o.id:
+                        bound = _ub(c.value, env)
+                        why = f"bit arithmetic of `{norm(c.value, 60)}`"
+                for c in ast.walk(iff.test):
+                    if isinstance(c, ast.Compare):
+                        terms = [c.left, *c.comparators]
+                        for i, op in enumerate(c.ops):
+                            l, rgt = terms[i], terms[i + 1]
+                            is_o = lambda t: (isinstance(t, ast.Name) and t.id == o.id) or (isinstance(t, ast.NamedExpr) and t.target.id == o.id)
+                            if is_o(l) and isinstance(op, (ast.Lt, ast.LtE)) and isinstance(rgt, ast.Constant):
+                                k = rgt.value - (1 if isinstance(op, ast.Lt) else 0)
+                                bound = k if bound is None else min(bound, k)
+                                why += f", tightened by `{norm(c, 50)}`"
+                            if is_o(rgt) and isinstance(op, (ast.Gt, ast.GtE)) and isinstance(l, ast.Constant):
+                                k = l.value - (1 if isinstance(op, ast.Gt) else 0)
+                                bound = k if bound is None else min(bound, k)
+                                why += f", tightened by `{norm(c, 50)}`"
+                if bound is None and o.id in env:
+                    bound = env[o.id]
+                    why = "a single byte"
+            elif isinstance(o, ast.Call) and isinstance(o.func, ast.Name) and o.func.id == "ord":
+                bound, why = 0xFF, "ord of a literal"
+            n_ret += 1
+            rr.inst(f"return {norm(r, 40)}", True, {"return": norm(r, 50), "upper_bound": hex(bound) if bound is not None else None, "from": why})
+            if bound is None or bound > LIMIT:
+                rr.add(finding("RANGE", fi, r, f"decode_one can return an ordinal as large as {hex(bound) if bound is not None else 'unbounded'} here ({why}); get_width() passes it to chr(), which raises ValueError above 0x10FFFF: byte text containing F4 90 80 80 .. F7 BF BF BF crashes every width / layout computation instead of being shown as '?'", construct=f"ordinal up to {hex(bound) if bound is not None else 'unbounded'} returned"))
+    if n_ret < 3:
+        raise AnalysisError("decode_one: the returns of the multi-byte branches were not found")
+    return rr
+
+
 def run(ctx: Ctx):
     p = ctx.p
     loops = [f.qualname for f in p.modules[SU].functions if any(isinstance(n, ast.While) for n in f.own_nodes())]
@@ -350,12 +433,15 @@ def run(ctx: Ctx):
         kind.run_kind(p, "C11.7", [SU, "urwid.util"], floor=1),
         rule_dbe_ranges(ctx),
         rule_trim_frame(ctx),
+        rule_ordinal_range(ctx),
     ]
 
 
 _S = "urwid/str_util.py"
 _U = "urwid/util.py"
 MUTANTS = [
+    Mut("four-byte-form-unbounded", _S, "decode_one", "if 0x10000 <= (o := ((b1 & 0x07) << 18) | ((b2 & 0x3F) << 12) | ((b3 & 0x3F) << 6) | (b4 & 0x3F)) <= 0x10FFFF:", "if (o := ((b1 & 0x07) << 18) | ((b2 & 0x3F) << 12) | ((b3 & 0x3F) << 6) | (b4 & 0x3F)) >= 0x10000:", "RANGE|str_util.decode_one"),
+    Mut("twin-four-byte-bound-strict", _S, "decode_one", "<= 0x10FFFF:", "< 0x110000:", twin=True),
     Mut("trim-rescan-from-moved-origin", _U, "calc_trim_text", "spos, sc = str_util.calc_text_pos(text, start_offs, end_offs, start_col + 1)", "spos, sc = str_util.calc_text_pos(text, spos, end_offs, start_col + 1)", "PAIR|util.calc_trim_text"),
     Mut("trim-steps-one-character", _U, "calc_trim_text", "spos, sc = str_util.calc_text_pos(text, start_offs, end_offs, start_col + 1)", "spos = str_util.move_next_char(text, spos, end_offs)", "PAIR|util.calc_trim_text"),
     Mut("dbe-lead-81-excluded", _S, "within_double_byte", "if text[pos - 1] >= 0x81 and", "if text[pos - 1] > 0x81 and", "TAB|str_util.within_double_byte"),
